@@ -32,6 +32,11 @@ def cases(tier, rng):
         yield {"k": "lt", "v": v}
     for v in (-1, 2 ** 32, 2 ** 32 + 7, 2 ** 40):
         yield {"k": "lt", "v": v, "reject": True}
+    # numbers pushed into scripts, 0 .. 2^40 and a little beyond: boundaries of every byte width and of the sign bit
+    nums = list(range(0, 20)) + [x + dlt for b in (7, 8, 15, 16, 23, 24, 31, 32, 39, 40, 47) for x in (2 ** b,) for dlt in (-2, -1, 0, 1)]
+    nums += [500000000, 499999999, 2 ** 32 - 1, 2 ** 40, 2 ** 40 - 1] + [rng.getrandbits(rng.choice([17, 25, 31, 32, 33, 40])) for _ in range(200 if tier == "quick" else 5000)]
+    for n in nums:
+        yield {"k": "num", "n": n}
     vs = list(range(1, 65536, 1 if tier == "thorough" else 13)) + [127, 128, 129, 255, 256, 32767, 32768, 33023, 65535]
     for v in vs:
         for blk in (True, False):
@@ -70,6 +75,8 @@ def impl(d):
         return a + "|" + b + ("" if stable else "|UNSTABLE")
     if k == "lt":
         return Locktime(d["v"]).for_transaction().hex()
+    if k == "num":
+        return Script([d["n"], "OP_CHECKLOCKTIMEVERIFY"]).to_bytes().hex()
     if k == "csv":
         s = Sequence(C.TYPE_RELATIVE_TIMELOCK, d["v"], d["blk"])
         return Script([s.for_script(), "OP_CHECKSEQUENCEVERIFY"]).to_bytes().hex()
@@ -89,6 +96,8 @@ def model(d):
         return sx("seq_facts", _ty(k), d["v"], d["blk"], k == "rbf")
     if k == "lt":
         return sx("locktime", d["v"])
+    if k == "num":
+        return sx("to_bytes", toks_sx([["int", d["n"]], ["op", "OP_CHECKLOCKTIMEVERIFY"]]))
     return None
 
 
@@ -111,6 +120,13 @@ def oracle(d):
         return "len4=1,nonfinal=1,rbf=1|ERR"
     if k == "lt" and 0 <= d["v"] < 2 ** 32:
         return d["v"].to_bytes(4, "little").hex()
+    if k == "num":
+        n = d["n"]                                  # CScriptNum: minimal little-endian magnitude, 0x00 appended when the top bit is set
+        if n == 0: return "00b1"
+        if n <= 16: return "%02xb1" % (0x50 + n)
+        b = n.to_bytes((n.bit_length() + 7) // 8, "little")
+        if b[-1] & 0x80: b += b"\x00"
+        return "%02x" % len(b) + b.hex() + "b1"
     return None
 
 
